@@ -316,7 +316,15 @@ def _work(job):
 def replay(rep):
     inp = rep['input']
     ag = _ag()
-    if inp[0] == 'factor':
+    if inp[0] == 'shape':
+        _, year, g, age, ev = inp
+        try:
+            got = ag.AgeGrader(year).calculate_factor(g, age, ev)
+        except Exception as e:
+            got = 'raises %s' % type(e).__name__
+        bad = not (isinstance(got, (int, float)) and got > 0)
+        print('replay: calculate_factor(%r, %r, %r) -> %r' % (g, age, ev, got))
+    elif inp[0] == 'factor':
         _, year, g, age, ev = inp
         obj = ag.AgeGrader(year)
         try:
@@ -354,6 +362,21 @@ def main(tier, seed):
         d = ag.AgeGrader(year).get_data()
         for g in 'mf':
             for ri in range(len(d[g])):
+                row = d[g][ri]
+                # table shape: a row has one entry (a number or null) per age column; a shorter row leaves ages the table
+                # claims to cover without a factor
+                name = 'table/%s-%s-%s/row-has-an-entry-per-age-column' % (year, g, row[0])
+                if len(row) - 3 != len(d['ages']):
+                    run.record(name, 'ground', 'refuted', 'ground-evaluation', 0.0, 'tables')
+                    age = d['ages'][-1]
+                    try:
+                        got = ag.AgeGrader(year).calculate_factor(g, age, row[0])
+                    except Exception as e:
+                        got = 'raises %s' % type(e).__name__
+                    run.violation(name, dict(call='AgeGrader(%r).calculate_factor(%r, %r, %r)' % (year, g, age, row[0]), observed=got,
+                                             required='a finite positive factor (the row has %d entries for %d age columns)' % (len(row) - 3, len(d['ages'])),
+                                             input=['shape', year, g, age, row[0]]), not (isinstance(got, (int, float)) and got > 0))
+                    continue
                 J.append(('sym', (year, g, ri)))
                 J.append(('gr', (year, g, ri)))
     J += [('ath', ('m',)), ('ath', ('f',))]
